@@ -1,7 +1,7 @@
 (* Props/C10.v — C10: the JSON parser (json/parse.go).
    Statements only; each is closed by [exact] of a lemma proved in coq/theories/Json/. *)
 From Verif Require Import Common.Base Common.Lx Json.Model Json.Lex Json.Spec Json.Grammar Json.Proofs Json.Trace
-  Json.GrammarProofs Json.AcceptLex Json.Accept Json.Sticky Json.Rejects Json.Stuck Json.Congr.
+  Json.GrammarProofs Json.AcceptLex Json.Accept Json.Sticky Json.Rejects Json.Stuck Json.Congr Json.Tokens.
 
 (* MAIN THEOREM.  Every document of the RFC 8259 grammar (Json/Grammar.v: whitespace explicit at the six
    structural positions; all escape and number forms) is parsed to the end of the input without a parse
@@ -184,17 +184,56 @@ Theorem json_error_at_illegal_byte :
 Proof. exact error_at_illegal_byte_proof. Qed.
 Print Assumptions json_error_at_illegal_byte.
 
-(* Parse errors that ARE re-reported forever: in the situations of the listed rejections (stuck_at:
+(* Parse errors that are re-reported forever: in the situations of the listed rejections (stuck_at:
    mismatched or unopened closer, missing comma, stray comma, non-string key, illegal byte) every further
    call returns ErrorGrammar again, with the error at the same offset and the state stack unchanged.
-   Not covered: the error after a missing colon (json_continues_after_error). *)
-Theorem json_parse_error_sticky_partial :
+   (What happens after a missing colon is stated exactly below; the general dichotomy is
+   json_terminal_report / json_active_calls_linear.) *)
+Theorem json_listed_errors_sticky :
   forall n p a tok s, cur3 (pz p) a tok s -> stuck_at (pst p) (pneed p) (prd p) s ->
     exists tr, trace n p = Some tr /\ length tr = n /\
       Forall (fun up => fst up = (G_Error, None) /\ perr (snd up) = Some (len a + len tok) /\
                         pst (snd up) = pst p) tr.
 Proof. exact parse_error_stuck_proof. Qed.
-Print Assumptions json_parse_error_sticky_partial.
+Print Assumptions json_listed_errors_sticky.
+
+(* ---- after a missing colon, exactly.  The call records the error at the offending byte and leaves the
+   parser in key position (stack unchanged), needComma false, the cursor AT the offending byte; the key that
+   was read is dropped (after_missing_colon).  The next call is an ordinary call in key position: ---- *)
+Theorem json_missing_colon_exact :
+  forall p a tok lead k w2 s2 st,
+    cur3 (pz p) a tok (lead ++ k ++ w2 ++ s2) -> lead_ok p lead false -> pst p = S_ObjectKey :: st ->
+    jstring k -> ws w2 -> is_ws (hd0 s2) = false -> hd0 s2 <> 58 ->
+    exists p1, next p = Some ((G_Error, None), p1) /\ prd p1 = prd p /\
+               after_missing_colon p1 (len a + len tok + len lead + len k + len w2) s2 st.
+Proof. exact missing_colon_exact_proof. Qed.
+Print Assumptions json_missing_colon_exact.
+
+(* (1) offending byte other than the quote, } and , (a value, a bracket, NUL, the end of input, ...): the same
+   error at the same offset on every further call *)
+Theorem json_missing_colon_then_stuck :
+  forall n p1 off s2 st,
+    after_missing_colon p1 off s2 st -> is_ws (hd0 s2) = false ->
+    hd0 s2 <> 34 -> hd0 s2 <> 44 -> hd0 s2 <> 125 ->
+    exists tr, trace n p1 = Some tr /\ length tr = n /\
+      Forall (fun up => fst up = (G_Error, None) /\ perr (snd up) = Some off /\ pst (snd up) = pst p1) tr.
+Proof. exact missing_colon_then_stuck_proof. Qed.
+Print Assumptions json_missing_colon_then_stuck.
+
+(* (2) offending byte } : the next call returns EndObject (Err() keeps the error) *)
+Theorem json_missing_colon_then_close :
+  forall p1 off r st, after_missing_colon p1 off (125 :: r) st -> st <> [] ->
+    exists lo p2, next p1 = Some ((G_EndObject, Some (lo, [125])), p2) /\ pst p2 = valfix st /\ perr p2 = Some off.
+Proof. exact missing_colon_then_close_proof. Qed.
+Print Assumptions json_missing_colon_then_close.
+
+(* (3) offending byte starts another key with its colon: that key is returned (a comma is consumed as a
+   separator and then (1)-(3) apply to what follows) *)
+Theorem json_missing_colon_then_key :
+  forall p1 off k2 w r st, after_missing_colon p1 off (k2 ++ w ++ 58 :: r) st -> jstring k2 -> ws w ->
+    exists lo p2, next p1 = Some ((G_String, Some (lo, k2)), p2) /\ pst p2 = S_ObjectValue :: st /\ perr p2 = Some off.
+Proof. exact missing_colon_then_key_proof. Qed.
+Print Assumptions json_missing_colon_then_key.
 
 (* ---- the caller keeps calling after errors (C01 reading, DESIGN section 6): terminal reports ----
    A terminal report is an ErrorGrammar call that changes neither the offset nor needComma (ErrorGrammar
@@ -234,3 +273,50 @@ Theorem json_parse_error_forever :
     Forall (fun up => perr (snd up) = Some 2 /\ err_kind (snd up) = 2) (skipn 1 tr).
 Proof. exact parse_error_forever_proof. Qed.
 Print Assumptions json_parse_error_forever.
+
+(* ---- soundness of what is accepted, per call and for ALL inputs (json_state_machine gives the sequence of
+   unit types; this gives the bytes).  Every successful call consumes exactly: a gap, a unit, and for a key
+   whitespace and the colon.
+   tok_exact: a Number unit is exactly an RFC 8259 number, a Literal unit exactly true/false/null, a String
+     unit a quoted run without NUL, Start/End a single bracket;
+   gapG: the bytes between the old cursor and the unit are whitespace - and then needComma forces the unit
+     to be a closer - or whitespace , whitespace with the parser inside an array or in key position;
+   unit_end: the unit ends at the new cursor, except a key, which is followed by whitespace and ':' . ---- *)
+Theorem json_call_exact :
+  forall d p u p', json_inv d p -> next p = Some (u, p') ->
+    match snd u with
+    | Some (lo, b) => tok_exact (fst u) b /\ gapG d (lpos (pz p)) p (fst u) lo /\ unit_end d p' (fst u) lo b
+    | None => fst u = G_Error
+    end.
+Proof. exact call_exact_proof. Qed.
+Print Assumptions json_call_exact.
+
+Theorem json_trace_calls_exact :
+  forall d n tr, trace n (json_init d) = Some tr -> calls_exact d (json_init d) tr.
+Proof. exact trace_calls_exact_proof. Qed.
+Print Assumptions json_trace_calls_exact.
+
+(* the units of json_accepts_valid (and of any run of the driver) are single tokens *)
+Theorem json_drive_tokens_exact :
+  forall d fuel units final, drive fuel (json_init d) = Done units final ->
+    Forall (fun u => tok_exact (sg u) (sbytes u)) units.
+Proof. exact drive_tokens_exact_proof. Qed.
+Print Assumptions json_drive_tokens_exact.
+
+(* the lexer half of exactness: what consumeNumberToken accepts is an RFC 8259 number (and by
+   json_accepts_valid every RFC number, string and literal followed by a separator is one unit) *)
+Theorem json_number_token_exact :
+  forall s x r, num_split s = Some (x, r) -> jnumber x.
+Proof. exact num_split_jnumber. Qed.
+Print Assumptions json_number_token_exact.
+
+(* the converse of json_accepts_valid is FALSE: the parser is lenient.  Witnesses (not grammar documents,
+   parsed to the end of the input with Err() = io.EOF):  [1,]  [,1]  {,'a':1,}  (single extra comma before an
+   element, key or closer);  '\x'  and a raw TAB in a string (string contents unchecked);  the empty input,
+   [1  and  ['a  (end of input in value position or after a value, containers or a string left open). *)
+Theorem json_lenient_extensions :
+  Forall (fun d => ~ value d /\
+                   exists units final, drive (S (length d)) (json_init d) = Done units final /\ err_kind final = 1)
+         lenient_witnesses.
+Proof. exact lenient_extensions_proof. Qed.
+Print Assumptions json_lenient_extensions.
